@@ -5,6 +5,7 @@
 From Coq Require Import ZArith List Bool.
 From Coq Require Import Qcanon.
 From Verif Require Import Num Grid GridFacts GridGraphFacts Engine EngineFacts GridGraphRate.
+From Verif Require Import Enums EnumFacts.
 Open Scope Z_scope.
 
 Theorem C15_index_formula : forall g x y z, index g (x, y, z) = z * (gw g * gh g) + y * gw g + x.
@@ -104,6 +105,13 @@ Theorem C15_graph_trajectories : forall T g h, wf_grid g -> Z.of_nat (nC T) = gs
   forall dt n x, euler_steps T (graph_of_grid g h) dt n x = euler_steps T (GGrid g h) dt n x.
 Proof. exact grid_graph_euler_steps. Qed.
 Print Assumptions C15_graph_trajectories.
+
+(* string enumerations (Model/Enums.v, re-read from /repo's Python and C++ source on every run by harness/translate_enums.py) *)
+(* the two boundary-condition strings of the grid are the ones the engine compares against, per axis and index:
+   "reflecting" -> 0, "periodical" -> 1 for x, y, z -> 0, 1, 2 *)
+Theorem C15_boundary_strings : boundary_ok = true.
+Proof. exact boundary_strings_agree. Qed.
+Print Assumptions C15_boundary_strings.
 
 (* non-vacuity: a 3x2x2 grid, periodic in x only *)
 Definition ex_grid := {| gw := 3; gh := 2; gd := 2; px := true; py := false; pz := false |}.
